@@ -117,6 +117,11 @@ def rand_case(rng, entry, kinds=("plain", "ret", "fail"), weights=(3, 3, 2), max
         c["layers"] = rand_layers(rng, rules)
     if entry in CONCURRENT and rules and rng.random() < 0.8:
         c["hold"] = rng.choice(rules)["name"]
+    if (c["names"] or c["layers"]) and rng.random() < 0.25:
+        # the same call made once BEFORE the observed one with the very same argument values (the same name list / layer slices):
+        # a call leaves its caller's arguments alone, so the second call does exactly what a first one does
+        c["again"] = True
+        c["prev"] = "stale"
     if len(rules) >= 2 and rng.random() < 0.15:
         # the same rule set reached through a HISTORY on the builder the call uses — an older variant of the set, then an
         # incremental build (changed kinds / versions, added rules) — with the entry point executed once on the same engine
@@ -409,6 +414,25 @@ def pool_wrappers_part(run, pid, methods=None):
                     sc["steps"].append({"op": "wait", "id": rid})
             scs.append(sc)
             sid += 1
+    # ... the same after the pool REMOVED a rule that is not the last one (every instance then runs the shortened set, each rule once)
+    for order in orders[:5]:
+        rules = poolfam.rules_v(1, names=order, kinds={"pd": "fail", "ps": "stop"})
+        gone = order[len(order) // 2 - 1] if len(order) > 2 else order[0]
+        # (a full update with the same rules first: from then on the master and every instance hold the SAME published container)
+        sc = {"id": sid, "min": 1, "max": 3, "model": 1, "rules": rules, "steps": [{"op": "update", "rules": rules}, {"op": "remove", "names": [gone]}], "_gone": gone}
+        rest = [n for n in order if n != gone]
+        rid = sid * 1000
+        for meth in methods:
+            if meth == "ExecuteRulesWithSpecifiedEM" and "ps" in order:
+                continue
+            for b in (True, False):
+                rid += 1
+                st = poolfam.req_step(rid, meth, list(rest), hold_at="", flag=True, b=b, n=1, m=len(rest) - 1)
+                st["layers"] = [list(rest[:1]), list(rest[1:])]
+                sc["steps"].append(st)
+                sc["steps"].append({"op": "wait", "id": rid})
+        scs.append(sc)
+        sid += 1
     # ... and OVERLAPPING calls on a (1,3) pool (one initial instance, two additional ones): three requests held inside their first
     # rule at once, released in reverse order — each map must be the caller's own (every value carries the request's id)
     for order in orders[:4]:
@@ -439,6 +463,14 @@ def pool_wrappers_part(run, pid, methods=None):
             extra.append((sc["id"], 0))
             continue
         steps = {st["id"]: st for st in sc["steps"] if st["op"] == "req"}
+        # exactly once: no rule body is entered twice by one request (the name lists and layers used here repeat no name)
+        enters = {}
+        for ev in o.get("events") or []:
+            if ev["kind"] == "enter":
+                enters[(ev["req"], ev.get("rule"))] = enters.get((ev["req"], ev.get("rule")), 0) + 1
+        for (q, rule_), cnt in enters.items():
+            if cnt > 1:
+                extra.append((sc["id"], q % 1000))
         for r in o["reqs"]:
             if not r.get("done"):
                 extra.append((sc["id"], r["id"] % 1000))
@@ -450,7 +482,7 @@ def pool_wrappers_part(run, pid, methods=None):
                 extra.append((sc["id"], r["id"] % 1000))          # an entry computed for ANOTHER request, or a map that changed after it was handed back
             got = poolfam.coq_list(["(%s, %s)" % (poolfam.coq_str(n), poolfam.coq_z(v // 1000000)) for n, v in sorted(r["result"].items()) if v >= 0])
             items.append("(%s, %s, (%s, %s, %s), %s, %s, (%s, %s))" % (poolfam.coq_nat(sc["id"]), poolfam.coq_nat(r["id"] % 1000), poolfam.coq_nat(sc["max"]), poolfam.coq_nat(sc["model"]), poolfam.coq_bool(st["b"] if st["method"] in HAS_B else True),
-                                                                 poolfam.coq_prules(sc["rules"]), c07.coq_shape(st, sc["model"]), got, poolfam.coq_bool(r["err"])))
+                                                                 poolfam.coq_prules([x for x in sc["rules"] if x["name"] != sc.get("_gone")]), c07.coq_shape(st, sc["model"]), got, poolfam.coq_bool(r["err"])))
     defs = ("Definition erule_s (r : rule) : erule := mkER (rname r) (rsal r) (probe_fails (rname r)) (negb (probe_fails (rname r))) (String.eqb (rname r) \"ps\") (Some (rbody r)).\n"
             "Definition spec_s (mx md : nat) (b : bool) (rs : list rule) (sh : call_shape) : outcome :=\n"
             "  spec_outcome (sh_entry sh) (mkCfg (map erule_s (sorted (m_master (mgmt_init mx md rs idshuffle)))) b (sh_n sh) (sh_m sh) (sh_names sh) (sh_layers sh) false None).\n"
